@@ -22,6 +22,14 @@ claimed = {
          "For all 8 integer types, string length and decimal64 (quick: fraction-digits 1,2,9,17,18; thorough: all 18): every restriction string with <= 2 parts over a boundary grid, 3 parts over a core grid, layout variants and syntactic faults, every depth-2 and depth-3 derivation chain of them, through module text + Process and through ParseRangesInt/ParseRangesDecimal, compared with math/big interval sets (exact written set, sorted/disjoint/coalesced, subset of the parent at every step; must-reject and must-accept classes).",
          "Trusted: the interval reference (ref/num). Grids stand in for the numeric domains. Unsorted/overlapping part layouts (RFC-invalid but tolerated by the library) may go either way but must denote the written set when accepted.",
          "DESIGN.md §3 C10"),
+ "C02": ("exhaustive enumeration of small texts vs. a reference reader written from RFC 7950 section 6",
+         "Every symbol sequence up to the bound over three lexical alphabets (15 characters up to length 6/7; 17 lexical pieces up to 5/7; 13 argument pieces inside one statement up to 6/7, with keyword k, keyword pattern and a tab-indented variant) - about 20 M texts in the quick tier - is parsed by yang.Parse and by an independent reference reader; accept/reject, keywords, argument presence, exact argument strings, nesting and order must agree, rejections must return no statements and a non-empty error. Texts with one of the four excluded constructs are detected by the reference and counted as excluded.",
+         "Trusted: ref/rfcread (250 lines, written from the RFC). Small-scope hypothesis: a defect that needs more than 7 symbols of these alphabets is not excluded.",
+         "DESIGN.md §3 C02"),
+ "C16": ("exhaustive enumeration of texts and single-fault injections vs. reference positions",
+         "(i) every accepted text of the C02 spaces: Statement.Location() of every statement against the reference reader's line/character-column; (ii) every accepted template of <= 5 (6) pieces over a 14-piece alphabet (tabs, CR LF, multi-byte runes, comments, multi-line strings) with each of ten lexical/syntactic faults injected at every applicable token: the first error line must start with the position of the offending token, backslash or opener; (iii) three module sets re-laid-out in 8 hostile layouts with one semantic fault of 9 kinds at every eligible statement: every file:line:col in any error must be a statement start and the statement the property names must be named.",
+         "Trusted: ref/rfcread positions. For cascading lexical faults only the first error line is compared. One known finding (known_findings.json).",
+         "DESIGN.md §3 C16"),
 }
 pending_reason = "check not built yet in this session (see DESIGN.md §12 build order); it will be claimed once its harness exists and is quiet on the unchanged tree"
 not_applicable_reasons = {}
